@@ -229,11 +229,13 @@ def ab_at(c, pi, k):
     ds = [float(x) for x in G.dstep_fr(c["th"])]
     row = c["E"][pi][k]
     e = math.fsum(x * d for x, d in zip(row, ds) if not math.isnan(x))
+    na = math.fsum(x * math.cos(t * math.pi / 180) * d for x, t, d in zip(row, c["th"], ds) if not math.isnan(x))
+    nb = math.fsum(x * math.sin(t * math.pi / 180) * d for x, t, d in zip(row, c["th"], ds) if not math.isnan(x))
     if e == 0:
-        return NAN, NAN
-    a = math.fsum(x * math.cos(t * math.pi / 180) * d for x, t, d in zip(row, c["th"], ds) if not math.isnan(x)) / e
-    b = math.fsum(x * math.sin(t * math.pi / 180) * d for x, t, d in zip(row, c["th"], ds) if not math.isnan(x)) / e
-    return a, b
+        if na == 0 and nb == 0:
+            return NAN, NAN           # 0/0
+        return None, None             # x/0 = +-inf: direction of an infinite vector, not compared
+    return na / e, nb / e
 
 
 def brute_peak(f, e, lo, hi):
@@ -344,8 +346,17 @@ def evaluate(ctx, cases):
                 mt = C.unfx(m[pi][2])
                 if (math.isnan(mt) != (c["f"][ii] == 0)) or (not math.isnan(mt) and not C.close(ti, mt, 1e-15, 0.0)):
                     ctx.disagree("peak_period %r vs model %r" % (ti, mt), dict(rep, impl=ti, model=mt), is_property_failure=True)
+                # the property itself: direction and spread are the per-frequency values at the peak index
+                nfq = len(c["f"])
+                dpf = C.unfx(im["dir_pf"][pi * nfq + ii]); spf = C.unfx(im["spr_pf"][pi * nfq + ii])
+                if not C.close(di, dpf, 1e-13, 0.0) or not C.close(si, spf, 1e-13, 0.0):
+                    ctx.oracle_fail("peak direction/spread = %r/%r, per-frequency direction/spread at the peak index %d = %r/%r"
+                                    % (di, si, ii, dpf, spf), dict(rep, impl=[di, si], expected=[dpf, spf]))
                 a, bb = ab_at(c, pi, ii)
                 md = C.unfx(m[pi][3]); ms = C.unfx(m[pi][4])
+                if a is None:
+                    ctx.tally("skipped: e = 0 with non-zero directional numerators (negative direction steps)")
+                    continue
                 if math.isnan(a) or math.isnan(bb):
                     if not math.isnan(di) or not math.isnan(si):
                         ctx.oracle_fail("direction/spread = %r/%r although a1/b1 at the peak are missing" % (di, si), rep)
@@ -409,7 +420,9 @@ def evaluate(ctx, cases):
             d = INF if math.isnan(c["depth"][pi]) else c["depth"][pi]
             ctx.tally("depth: " + ("nan" if math.isnan(c["depth"][pi]) else ("inf" if math.isinf(d) else "finite")))
             if isbad(mk[pi]) or isbad(ki):
-                if not (isbad(mk[pi]) and isbad(ki)):
+                if prem and status == "C" and bp is not None and c["f"][bp] > 0 and isbad(ki):
+                    ctx.oracle_fail("peak wavenumber is %r at peak frequency %r, depth %r" % (ki, c["f"][bp], c["depth"][pi]), rep)
+                elif not (isbad(mk[pi]) and isbad(ki)):
                     ctx.disagree("peak_wavenumber %r vs model %r" % (ki, mk[pi]), rep, is_property_failure=False)
                 continue
             if not C.close(ki, mk[pi], 2e-3, 0.0):
